@@ -853,15 +853,106 @@ def expand_setup(ex, st):
     st.inputs['option'] = st.env['option']
 
 
+# File level: ssh expands a value exactly once.  parse() is entered once per config path (load), once per included
+# file (_include) and again on an object that starts from a previous config's map - always on the same option map.
+# ghost_expanded = the options whose current value is already the result of an expansion (by an earlier parse() on
+# this map).  Such a value must not be expanded again: '%%h' would become '%h' and then the host name, and a token or
+# environment VALUE containing '%' or '${' (on the server: the remote user name) would be re-interpreted.
+EXPAND_CLASSES = {'SSHConfig': dict(CFG_FIELDS, ghost_expanded='dict[str,bool]')}
+
+
+def expanded_once(c):
+    k = c.arg('option')
+    again = z3.And(z3.Select(c.oldv('ghost_expanded').dom, k), z3.Select(c.oldv('_options').dom, k))
+    return z3.Implies(again, options_kept(c))
+
+
 parse_expand = Spec(
-    PROP, 'config', 'SSHConfig.parse', self_class='SSHConfig', classes=CLASSES, params={'path': 'opaque:Path'},
+    PROP, 'config', 'SSHConfig.parse', self_class='SSHConfig', classes=EXPAND_CLASSES, params={'path': 'opaque:Path'},
     region=expand_region, setup=expand_setup, stubs={'self._expand_val': expand_val_term_stub},
     cases=[('expand-one-option', {})],
     ensures=[('value-expanded-in-place', expand_one_post),
              ('tokens-and-matching-kept', lambda c: z3.And(tokens_kept(c), c.new('_matching') == c.old('_matching')))],
+    always=[('already-expanded-value-is-not-expanded-again', expanded_once)],
     raises={'ConfigParseError': expand_one_error})
 parse_expand.no_replay = True
 parse_expand.map_comprehensions = True
+
+
+
+# ------------------------------------------------------------------ Include
+# ssh_config(5) Include: "Include the specified configuration file(s).  Multiple pathnames may be specified and each
+# pathname may contain glob(7) wildcards" - every file a pattern matches is read, at this point of the including
+# file, and reading goes on in the including file afterwards (its name / line number for messages, and an active
+# block: Include is only dispatched on an active line, see parse[line-dispatch]).
+# The file system is assumed: pathlib operations return fresh paths, and list(p for p in path.glob(pattern) if
+# p.is_file()) is "the regular files the pattern matches, in glob order" (ghost_found collects them; ghost_parsed
+# collects what self.parse() was called with).
+FILE = 'opaque:File'
+INC_FIELDS = dict(CFG_FIELDS, ghost_found='seq[' + FILE + ']', ghost_parsed='seq[' + FILE + ']')
+INC_CLASSES = {'SSHConfig': INC_FIELDS, 'PathObj': {'anchor': 'str', 'parts': 'seq[str]'}}
+GLOB_TEXT = 'p for p in path.glob(pattern) if p.is_file()'
+
+
+def new_path_stub(cx):
+    return [Out(ret=cx.ex.new_object(cx.st, 'PathObj', 'path'))]
+
+
+new_path_stub.modifies = ()
+
+
+def glob_files_stub(cx):
+    if ast.unparse(cx.node.args[0]).strip('()') != GLOB_TEXT.strip('()'):
+        raise Unsupported('_include: the file enumeration is no longer `list(' + GLOB_TEXT + ')`')
+    files = cx.fresh('seq[' + FILE + ']', 'glob_files')
+    found = cx.selff('ghost_found')
+    return [Out(ret=files, sets={'ghost_found': VSeq(z3.Concat(found.z, files.z), FILE)})]
+
+
+glob_files_stub.modifies = ('ghost_found',)
+
+
+def parse_file_stub(cx):
+    """self.parse(path): reads one file on this object - anything in the resolution state may change, the current
+    file name / line number are overwritten, and the file may be rejected or unreadable"""
+    f = cx.args[0]
+    if not (isinstance(f, VOpaque) and f.sortname == 'File'):
+        raise Unsupported(f'_include: parse() called with {f!r}, not with a file found by the glob')
+    parsed = cx.selff('ghost_parsed')
+    outs = []
+    for exc in (None, VExc('ConfigParseError'), VExc('OSError')):
+        sets = {k: cx.fresh(INC_FIELDS[k], 'p_' + k) for k in ('_options', '_tokens', '_matching', '_final',
+                                                                 '_path', '_line_no')}
+        sets['ghost_parsed'] = VSeq(z3.Concat(parsed.z, z3.Unit(f.z)), FILE)
+        outs.append(Out(sets=sets, exc=exc))
+    return outs
+
+
+parse_file_stub.modifies = ('_options', '_tokens', '_matching', '_final', '_path', '_line_no', 'ghost_parsed')
+
+
+def include_inner_inv(c):
+    it = c.extra['iter'].z
+    i = c.extra['i']
+    return z3.Concat(c.new('ghost_parsed'), z3.Extract(it, i, z3.Length(it) - i)) == c.new('ghost_found')
+
+
+include = Spec(
+    PROP, 'config', 'SSHConfig._include', self_class='SSHConfig', classes=INC_CLASSES,
+    params={'option': 'str', 'args': 'seq[str]'},
+    stubs={'Path': new_path_stub, 'PathObj.expanduser': new_path_stub, 'list(<genexp>)': glob_files_stub,
+           'self.parse': parse_file_stub},
+    loops={1: LoopSpec(header='for pattern in args',
+                       invariant=lambda c: c.new('ghost_parsed') == c.new('ghost_found')),
+           2: LoopSpec(header='for path in paths', invariant=include_inner_inv)},
+    local_types={'path': FILE},
+    requires=lambda c: c.old('ghost_parsed') == c.old('ghost_found'),
+    ensures=[('every-matched-file-is-read-in-glob-order', lambda c: c.new('ghost_parsed') == c.new('ghost_found')),
+             ('reading-resumes-in-the-including-file',
+              lambda c: z3.And(c.new('_path') == c.old('_path'), c.new('_line_no') == c.old('_line_no'))),
+             ('including-block-is-active-again', lambda c: c.new('_matching')),
+             ('consumes-its-arguments', lambda c: z3.Length(c.local('args')) == 0)],
+    raises={'ConfigParseError': True, 'OSError': True})
 
 
 # ------------------------------------------------------------------ bounded stand-in: the real ssh as oracle
@@ -874,9 +965,236 @@ ASSUMPTIONS += [
 ]
 
 
+
+
+# ------------------------------------------------------------------ client token table
+# asyncssh docs/api.rst "client config token expansions" (same letters as ssh_config(5) TOKENS):
+#   %C hash of (local host, host, port, user)   %d local home   %h remote host   %i local uid   %L short local host
+#   %l local host   %n original remote host   %p remote port   %r remote username   %u local username
+# Environment (assumed): socket.gethostname(), os.path.expanduser('~'), os.getuid() exist (UNIX), sha1 is a function.
+LOCALHOST, HOMEDIR, UID = z3.String('local_hostname'), z3.String('home_directory'), z3.Int('local_uid')
+str_of_py = z3.Function('str_of_pyobj', P, StrS)
+sha1hex = z3.Function('sha1_hexdigest', BytesS, StrS)
+utf8 = z3.Function('encode_utf8', StrS, BytesS)
+TOK_CLASSES = dict(CLASSES, Sha={'data': 'bytes'})
+
+
+def _as_str(cx, v):
+    v = cx.ex.deref(cx.st, v)
+    if isinstance(v, VPy):
+        cx.require('joined-value-is-a-str', P.is_py_str(v.z))
+        return P.py_s(v.z)
+    return v.z
+
+
+def join_empty_stub(cx):
+    items = cx.ex.deref(cx.st, cx.args[0]).items
+    return VStr(z3.Concat(*[_as_str(cx, i) for i in items]))
+
+
+def sha1_stub(cx):
+    ref = cx.st.alloc(Record('Sha', {'data': cx.args[0]}), 'Sha')
+    return [Out(ret=ref)]
+
+
+TOKEN_STUBS = {'socket.gethostname': lambda cx: VStr(LOCALHOST), 'os.path.expanduser': lambda cx: VStr(HOMEDIR),
+               'os.getuid': lambda cx: VInt(UID), 'hasattr': lambda cx: VBool(True),
+               'str': lambda cx: VStr(str_of_py(py_inject(cx.ex.deref(cx.st, cx.args[0])))),
+               "''.join": join_empty_stub, 'sha1': sha1_stub,
+               'Sha.hexdigest': lambda cx: VStr(sha1hex(cx.field('data', cx.recv).z))}
+for _f in TOKEN_STUBS.values():
+    _f.modifies = ()
+
+
+def remote_user(c):
+    u = opt_get(c, 'User', P.py_none)
+    return z3.If(z3.And(P.is_py_str(u), z3.Length(P.py_s(u)) > 0), P.py_s(u), c.old('_local_user'))
+
+
+def client_token_table(c):
+    host = P.py_s(opt_get(c, 'Hostname', P.py_str(c.old('_orig_host'))))
+    port = str_of_py(opt_get(c, 'Port', P.py_int(22)))
+    user = remote_user(c)
+    table = [('h', host), ('n', c.old('_orig_host')), ('p', port), ('r', user), ('u', c.old('_local_user')),
+             ('l', LOCALHOST), ('C', sha1hex(utf8(z3.Concat(LOCALHOST, host, port, user)))),
+             ('i', str_of_py(P.py_int(UID)))]
+    o, n = c.oldv('_tokens'), c.newv('_tokens')
+    dom, val = o.dom, o.val
+    for k, v in table:
+        dom, val = z3.Store(dom, S(k), True), z3.Store(val, S(k), v)
+    # %L: the local host name up to (not including) its first '.'
+    short = z3.Select(n.val, S('L'))
+    short_ok = z3.And(z3.PrefixOf(short, LOCALHOST), z3.Not(z3.Contains(short, S('.'))),
+                      z3.Or(short == LOCALHOST, z3.SubString(LOCALHOST, z3.Length(short), 1) == S('.')))
+    dom, val = z3.Store(dom, S('L'), True), z3.Store(val, S('L'), short)
+    # %d only when a home directory is known
+    dom = z3.If(HOMEDIR != S('~'), z3.Store(dom, S('d'), True), dom)
+    val = z3.If(HOMEDIR != S('~'), z3.Store(val, S('d'), HOMEDIR), val)
+    return z3.And(n.dom == dom, n.val == val, short_ok)
+
+
+def client_token_inv(c):
+    """values the token table reads (writers: _set_hostname stores a str; User is set by _set_string: str or None,
+    or by __init__ from the `user` argument)"""
+    o = c.oldv('_options')
+    h, u = z3.Select(o.val, S('Hostname')), z3.Select(o.val, S('User'))
+    return z3.And(z3.Implies(z3.Select(o.dom, S('Hostname')), P.is_py_str(h)),
+                  z3.Implies(z3.Select(o.dom, S('User')), z3.Or(P.is_py_str(u), u == P.py_none)))
+
+
+client_set_tokens = Spec(
+    PROP, 'config', 'SSHClientConfig._set_tokens', self_class='SSHClientConfig', classes=TOK_CLASSES,
+    stubs=dict(TOKEN_STUBS), requires=client_token_inv,
+    ensures=[('token-table-as-documented', client_token_table), ('options-kept', options_kept),
+             ('matching-kept', lambda c: c.new('_matching') == c.old('_matching'))])
+client_set_tokens.no_replay = True       # reads the real host name / uid / home directory
+
+
+# ------------------------------------------------------------------ data tables (checked on the source text, AST)
+# keyword -> kind of argument, from ssh_config(5) / sshd_config(5) (flag = yes/no, int, string = one argument that may
+# be `none`, list = all arguments / first directive wins, acc = every directive adds, acclist = every directive adds
+# all its arguments) and the keywords with an argument grammar of their own
+KIND_HANDLER = {'flag': '_set_bool', 'int': '_set_int', 'string': '_set_string', 'list': '_set_string_list',
+                'acc': '_append_string', 'acclist': '_append_string_list'}
+CLIENT_KEYWORDS = {
+    'flag': ['CanonicalizeFallbackLocal', 'ChallengeResponseAuthentication', 'Compression', 'EnableSSHKeySign',
+             'ForwardX11Trusted', 'GSSAPIAuthentication', 'GSSAPIDelegateCredentials', 'GSSAPIKeyExchange',
+             'HostbasedAuthentication', 'IdentitiesOnly', 'KbdInteractiveAuthentication', 'PasswordAuthentication',
+             'PubkeyAuthentication', 'TCPKeepAlive'],
+    'int': ['CanonicalizeMaxDots', 'ConnectTimeout', 'Port', 'ServerAliveCountMax', 'ServerAliveInterval'],
+    'string': ['BindAddress', 'CASignatureAlgorithms', 'Ciphers', 'HostKeyAlgorithms', 'HostKeyAlias', 'IdentityAgent',
+               'KexAlgorithms', 'MACs', 'PKCS11Provider', 'PreferredAuthentications', 'ProxyCommand', 'ProxyJump',
+               'RemoteCommand', 'Tag', 'User'],
+    'list': ['CanonicalDomains', 'CanonicalizePermittedCNAMEs', 'GlobalKnownHostsFile', 'SetEnv', 'UserKnownHostsFile'],
+    'acc': ['CertificateFile', 'IdentityFile'],
+    'acclist': ['SendEnv'],
+}
+CLIENT_SPECIAL = {'Host': '_match_host', 'Match': '_match', 'Include': '_include',
+                  'AddressFamily': '_set_address_family', 'CanonicalizeHostname': '_set_canonicalize_host',
+                  'ForwardAgent': '_set_bool_or_str', 'Hostname': '_set_hostname', 'RekeyLimit': '_set_rekey_limits',
+                  'RequestTTY': '_set_request_tty'}
+SERVER_KEYWORDS = {
+    'flag': ['AllowAgentForwarding', 'CanonicalizeFallbackLocal', 'ChallengeResponseAuthentication', 'Compression',
+             'GSSAPIAuthentication', 'GSSAPIKeyExchange', 'HostbasedAuthentication', 'KbdInteractiveAuthentication',
+             'PasswordAuthentication', 'PermitTTY', 'PubkeyAuthentication', 'TCPKeepAlive', 'UseDNS'],
+    'int': ['CanonicalizeMaxDots', 'ClientAliveCountMax', 'ClientAliveInterval', 'LoginGraceTime', 'Port'],
+    'string': ['BindAddress', 'CASignatureAlgorithms', 'Ciphers', 'KexAlgorithms', 'MACs'],
+    'list': ['AuthorizedKeysFile', 'CanonicalDomains', 'CanonicalizePermittedCNAMEs'],
+    'acc': ['HostCertificate', 'HostKey'],
+    'acclist': [],
+}
+SERVER_SPECIAL = {'Match': '_match', 'Include': '_include', 'AddressFamily': '_set_address_family',
+                  'CanonicalizeHostname': '_set_canonicalize_host', 'RekeyLimit': '_set_rekey_limits'}
+# asyncssh docs/api.rst "These expansions are available in the values of the following config options"
+DOC_EXPANDED_CLIENT = {'CertificateFile', 'IdentityAgent', 'IdentityFile', 'RemoteCommand'}
+# further keywords whose argument ssh itself expands (ssh_config(5) TOKENS: ProxyCommand) or that name an agent socket
+# path exactly like IdentityAgent (ForwardAgent): allowed in the table, nothing else is
+MAY_EXPAND_CLIENT = DOC_EXPANDED_CLIENT | {'ProxyCommand', 'ForwardAgent'}
+DOC_EXPANDED_SERVER = {'AuthorizedKeysFile'}
+
+
+def _class_attr(cls, name):
+    from pyvc import extract
+    for st_ in extract.get_module('config').classes[cls].body:
+        tgt = st_.targets[0] if isinstance(st_, ast.Assign) else getattr(st_, 'target', None)
+        if isinstance(tgt, ast.Name) and tgt.id == name and getattr(st_, 'value', None) is not None:
+            return st_.value
+    return None
+
+
+def _set_attr(cls, name):
+    node = _class_attr(cls, name)
+    if node is None:
+        return None
+    if isinstance(node, ast.Call) and ast.unparse(node) == 'set()':
+        return set()
+    return set(ast.literal_eval(node))
+
+
+def _handler_table(cls):
+    """{keyword: handler function name} from `_handlers = {option.lower(): (option, handler) for option, handler in (...)}`"""
+    node = _class_attr(cls, '_handlers')
+    if not (isinstance(node, ast.DictComp) and ast.unparse(node.key) == 'option.lower()'
+            and ast.unparse(node.value) == '(option, handler)' and len(node.generators) == 1
+            and ast.unparse(node.generators[0].target) == '(option, handler)'
+            and isinstance(node.generators[0].iter, ast.Tuple)):
+        return None
+    out = {}
+    for el in node.generators[0].iter.elts:
+        k, h = el.elts
+        if k.value in out:
+            return None
+        out[k.value] = h.attr if isinstance(h, ast.Attribute) else h.id
+    return out
+
+
+def _handler_lemma(cls, keywords, special):
+    table = _handler_table(cls)
+    if table is None:
+        return [f'{cls}._handlers is not the literal keyword table any more']
+    want = dict(special)
+    for kind, names in keywords.items():
+        for n in names:
+            want[n] = KIND_HANDLER[kind]
+    bad = [f'{k}: handled by {table[k]}, its argument grammar needs {want[k]}' for k in sorted(want)
+           if k in table and table[k] != want[k]]
+    bad += [f'{k}: keyword lost' for k in sorted(want) if k not in table]
+    bad += [f'{k}: keyword without a documented argument grammar' for k in sorted(table) if k not in want]
+    if len({k.lower() for k in table}) != len(table):
+        bad.append('two spellings of one keyword')
+    return bad
+
+
+def _expand_lemma():
+    bad = []
+    c, s_ = _set_attr('SSHClientConfig', '_percent_expand'), _set_attr('SSHServerConfig', '_percent_expand')
+    if s_ is None:
+        s_ = _set_attr('SSHConfig', '_percent_expand')       # inherited by the server class
+    if c is None or s_ is None:
+        return ['_percent_expand tables not found']
+    bad += [f'client {k}: documented as token-expanded but not in _percent_expand' for k in sorted(DOC_EXPANDED_CLIENT - c)]
+    bad += [f'client {k}: expanded although neither asyncssh nor ssh documents tokens for it'
+            for k in sorted(c - MAY_EXPAND_CLIENT)]
+    if s_ != DOC_EXPANDED_SERVER:
+        bad.append(f'server _percent_expand is {sorted(s_)}, documented {sorted(DOC_EXPANDED_SERVER)}')
+    tc, ts = _handler_table('SSHClientConfig') or {}, _handler_table('SSHServerConfig') or {}
+    bad += [f'{k} is expanded but is not a keyword' for k in sorted(c - set(tc)) + sorted(s_ - set(ts))]
+    return bad
+
+
+def _block_lemma():
+    """which keywords open a block (are evaluated on inactive lines) and which take the rest of the line verbatim"""
+    want = {('SSHConfig', '_conditionals'): {'match'}, ('SSHClientConfig', '_conditionals'): {'host', 'match'},
+            ('SSHConfig', '_no_split'): set(), ('SSHClientConfig', '_no_split'): {'proxycommand', 'remotecommand'}}
+    bad = [f'{c}.{n} is {sorted(_set_attr(c, n) or [])}, expected {sorted(v)}' for (c, n), v in want.items()
+           if _set_attr(c, n) != v]
+    for n in ('_conditionals', '_no_split'):
+        if _class_attr('SSHServerConfig', n) is not None:
+            bad.append(f'SSHServerConfig overrides {n}')
+    return bad
+
+
+def data_lemmas():
+    out = []
+    for name, fn in (('C18.data#client-keyword-table-gives-every-keyword-the-handler-of-its-argument-grammar',
+                      lambda: _handler_lemma('SSHClientConfig', CLIENT_KEYWORDS, CLIENT_SPECIAL)),
+                     ('C18.data#server-keyword-table-gives-every-keyword-the-handler-of-its-argument-grammar',
+                      lambda: _handler_lemma('SSHServerConfig', SERVER_KEYWORDS, SERVER_SPECIAL)),
+                     ('C18.data#percent-expanded-keywords-are-the-documented-ones', _expand_lemma),
+                     ('C18.data#block-keywords-and-verbatim-keywords', _block_lemma)):
+        try:
+            bad = fn()
+        except Exception as e:          # a table that can no longer be read is a failed check, not a crash
+            bad = [f'table not readable: {e!r}']
+        out.append({'name': name, 'verdict': 'refuted' if bad else 'proved', 'detail': bad, 'backend': 'data (AST)',
+                    'replayed': True})
+    return out
+
+
 def extra_checks(tier, seed):
     from specs import ssh_config_diff
     from pyvc import extract
     n = 1500 if tier == 'thorough' else 150
-    return {'bounded': [ssh_config_diff.run(n, seed, extract.REPO)] + ssh_config_diff.run_fixed(extract.REPO),
-            'lemmas': []}
+    return {'bounded': [ssh_config_diff.run(n, seed, extract.REPO), ssh_config_diff.run_expand_once(extract.REPO)]
+            + ssh_config_diff.run_fixed(extract.REPO),
+            'lemmas': data_lemmas()}
